@@ -59,6 +59,9 @@ pub mod rt {
     pub replay: Vec<u32>,
     pub spurious_wakeups: bool,
     pub trace: bool,
+    /// (extension) record, at every lock request, one edge (class of a lock the thread holds -> class of the
+    /// lock it requests); a lock's class is its creation site.  See `Outcome.lock_edges`.
+    pub lockdep: bool,
   }
   impl Default for Config {
     fn default() -> Self {
@@ -70,6 +73,7 @@ pub mod rt {
         replay: Vec::new(),
         spurious_wakeups: false,
         trace: false,
+        lockdep: false,
       }
     }
   }
@@ -113,6 +117,9 @@ pub mod rt {
     pub threads_spawned: u32,
     pub panics: Vec<(u32, String)>,
     pub trace: Vec<String>,
+    /// (extension, `Config.lockdep`) nested acquisitions seen in this run: ("site mode" held, its creation number in
+    /// this run, "site mode" requested, its creation number)
+    pub lock_edges: Vec<(String, u64, String, u64)>,
     /// (extension) a `Config.replay` entry was out of range for the decision it was applied to (it was
     /// then taken modulo n), or the run ended normally before the prefix was used up: the replayed
     /// program did not behave like the recorded one.
@@ -192,6 +199,7 @@ pub mod rt {
     steps: u64,
     choices: Vec<Choice>,
     trace: Vec<String>,
+    lock_edges: ::std::collections::BTreeSet<(String, u64, String, u64)>,
     panics: Vec<(u32, String)>,
     rng: u64,
     pct_points: Vec<u64>,
@@ -604,6 +612,27 @@ pub mod rt {
       let mut st = self.lock();
       self.tr(&mut st, me, if mode == Mode::Read { "req-read" } else if mode == Mode::Write { "req-write" } else { "req-lock" }, Some(id), Some(site));
       st.threads[me as usize].state = TState::Lock { lock: id, mode, site };
+      if self.cfg.lockdep {
+        let want = format!("{} {}", created, mode.name());
+        let held: Vec<(String, u64)> = st
+          .locks
+          .iter()
+          .filter(|(k, _)| **k != id)
+          .flat_map(|(k, l)| {
+            let mut v = Vec::new();
+            if matches!(l.writer, Some((w, _)) if w == me) {
+              v.push((format!("{} exclusive", l.created), *k & 0xffff_ffff));
+            }
+            if l.readers.iter().any(|r| r.0 == me) {
+              v.push((format!("{} read", l.created), *k & 0xffff_ffff));
+            }
+            v
+          })
+          .collect();
+        for (h, hid) in held {
+          st.lock_edges.insert((h, hid, want.clone(), id & 0xffff_ffff));
+        }
+      }
       let l = st.locks.entry(id).or_insert_with(|| LockSt { created, writer: None, readers: Vec::new() });
       let mut conflict = l.writer.filter(|w| w.0 == me).map(|w| (w.1, "exclusive"));
       if mode != Mode::Read && conflict.is_none() {
@@ -793,6 +822,7 @@ pub mod rt {
       steps: 0,
       choices: Vec::new(),
       trace: Vec::new(),
+      lock_edges: ::std::collections::BTreeSet::new(),
       panics: Vec::new(),
       rng,
       pct_points,
@@ -843,6 +873,7 @@ pub mod rt {
       threads_spawned: st.threads.len() as u32 - 1,
       panics: ::std::mem::take(&mut st.panics),
       trace: ::std::mem::take(&mut st.trace),
+      lock_edges: ::std::mem::take(&mut st.lock_edges).into_iter().collect(),
       replay_diverged: st.replay_diverged || (rt.cfg.replay.len() as u64 > st.steps && status_is_ok),
     };
     drop(st);
